@@ -478,23 +478,32 @@ def batch_check(names, eol, fix, dest):
     tmp = tempfile.mkdtemp(prefix='c20b_', dir='/dev/shm' if os.path.isdir('/dev/shm') else None)
     try:
         singles = []
+        by_pattern = dest == 'inplace-glob'
+        if by_pattern:
+            dest = 'inplace'
         for i, t in enumerate(texts):
             try:
                 singles.append(norm_once(tmp, 100 + i, t, eol, fix, dest))
             except Failed as e:
                 return None, 'single run fails (judged by the main family)'
         paths = []
+        sub_ = os.path.join(tmp, 'batch')
+        os.mkdir(sub_)
         for i, t in enumerate(texts):
-            pth = os.path.join(tmp, 'b%d.x12' % i)
+            pth = os.path.join(sub_, 'b%d.x12' % i)
             with open(pth, 'w', encoding='ascii', newline='') as f:
                 f.write(t)
             paths.append(pth)
-        argv = (['-e'] if eol else []) + (['-f'] if fix else []) + (['-i'] if dest == 'inplace' else []) + paths
+        listing0 = sorted(os.listdir(sub_))
+        # the inputs named one by one, or by a pattern the normaliser expands itself (a quoted dir/*.x12)
+        argv = (['-e'] if eol else []) + (['-f'] if fix else []) + (['-i'] if dest == 'inplace' else []) + ([os.path.join(sub_, '*.x12')] if by_pattern else paths)
         try:
             so = call_main(argv)
         except Failed as e:
-            return [('C20|batch|raises %s' % type(e.args[0]).__name__, 'x12norm %s on %s raised %r' % (' '.join(argv[:-len(paths)]), names, e.args[0]))], 'batch'
+            return [('C20|batch|raises %s' % type(e.args[0]).__name__, 'x12norm %s on %s raised %r' % (' '.join(a_ for a_ in argv if a_.startswith('-')), names, e.args[0]))], 'batch'
         v = []
+        if sorted(os.listdir(sub_)) != listing0:
+            v.append(('C20|batch|files appear or disappear next to the inputs', 'x12norm %s: directory held %r, now %r' % (' '.join(os.path.basename(a_) for a_ in argv), listing0, sorted(os.listdir(sub_)))))
         if dest == 'inplace':
             for i, pth in enumerate(paths):
                 if slurp(pth) != singles[i]:
@@ -539,7 +548,7 @@ def work_batch(shard):
     for names in pairs:
         for eol in (False, True):
             for fix in (False, True):
-                for dest in ('stdout', 'inplace'):
+                for dest in ('stdout', 'inplace', 'inplace-glob'):
                     v, label = batch_check(names, eol, fix, dest)
                     P.n += 1
                     if v is None:
